@@ -280,3 +280,716 @@ def emit(o, repo, T):
                 f'def learnRequeueFront : Bool := {"true" if front else "false"}\n'
                 f'def learnRequeueMixed : Bool := {"true" if mixed else "false"}')
     o.const('learnspn.requeue', requeue)
+
+    # =====================================================================================================
+    # Structural choices (second, static tie of the hand-written A-layer models): DESIGN §2.3, Oblig/Struct*.lean
+    # =====================================================================================================
+    emit_struct(o, repo, T)
+
+
+def _skip_prologue(T, fn, allowed):
+    """top-level statements of `fn` without the docstring and without the statements whose (blank-free) text is listed
+    in `allowed` (argument-defaulting prologues); everything else must be translated"""
+    allowed = {a.replace(' ', '').replace('\n', '') for a in allowed}
+    return [s for s in fn.body
+            if not (isinstance(s, ast.Expr) and isinstance(s.value, ast.Constant))
+            and ast.unparse(s).replace(' ', '').replace('\n', '') not in allowed]
+
+
+def emit_struct(o, repo, T):
+    U = T.Untranslatable
+    NODE_ATTRS = {'id': ('nid', 'item'), 'children': ('children', ('list', 'obj')), 'weights': ('weights', ('list', 'w')),
+                  'scope': ('scope', ('list', 'item'))}
+    NODE_SIG = '{N W : Type} (nid : N → Nat) (children : N → List N) (weights : N → List W) (scope : N → List Nat)'
+    NODES_PROLOGUE = ['if nodes is None: nodes = collect_nodes(root)']
+
+    # ---- (g) C03: validity.py --------------------------------------------------------------------------
+    validity = T.parse_file(repo, 'deeprob/spn/utils/validity.py')
+
+    def is_labeled():
+        fn = T.find_func(validity, 'is_labeled')
+        tr = T.TrZ(env={'nodes': ('nodes', ('list', 'obj'))}, attrs=NODE_ATTRS,
+                   syms={'None in ids': ('noneId', 'bool'), 'min(ids)': ('minId', 'int'), 'max(ids)': ('maxId', 'int')})
+        body = tr.chain(_skip_prologue(T, fn, NODES_PROLOGUE))
+        return ('/-- `validity.is_labeled` as coded: index of the first test that returns a reason (`none` = labelled); '
+                '`noneId` = `None in ids`, `minId` = `min(ids)`, `maxId` = `max(ids)` -/\n'
+                f'def isLabeledChain {NODE_SIG} (nodes : List N) (noneId : Bool) (minId maxId : Int) : Option Nat :=\n  {body}')
+    o.const('validity.is_labeled', is_labeled)
+
+    def per_node(qual, lean, listvar, cls_lean):
+        def mk():
+            fn = T.find_func(validity, qual)
+            # which nodes are visited: `<listvar> = list(filter(lambda n: isinstance(n, K), nodes))`, looped over as `node`
+            v = T.the(T.assignments(fn, listvar), f'{qual}: {listvar}')
+            key = ast.unparse(v).replace(' ', '')
+            pre, post = 'list(filter(lambdan:isinstance(n,', '),nodes))'
+            if not (key.startswith(pre) and key.endswith(post)):
+                raise U(f'{qual}: {listvar} is not list(filter(lambda n: isinstance(n, K), nodes))')
+            cls = key[len(pre):-len(post)]
+            loop = T.loop_over(fn, 'node', listvar)
+            rest = [s for s in _skip_prologue(T, fn, NODES_PROLOGUE)
+                    if s is not loop and not (isinstance(s, (ast.Assign, ast.AnnAssign)) and T.target_key(getattr(s, 'target', None) or s.targets[0]) == listvar)]
+            if not (len(rest) == 1 and isinstance(rest[0], ast.Return) and ast.unparse(rest[0]) == 'return None'):
+                raise U(f'{qual}: statements besides the filter, the loop and `return None`')
+            tr = T.TrZ(env={'node': ('node', 'obj')}, attrs=NODE_ATTRS)
+            body = tr.chain(loop.body)
+            return (f'/-- `validity.{qual}`: class of the nodes it visits -/\n'
+                    f'def {cls_lean} : String := {T.lean_str(cls)}\n'
+                    f'/-- `validity.{qual}` as coded, on one visited node: index of the first test that returns a reason -/\n'
+                    f'def {lean} {NODE_SIG} (node : N) : Option Nat :=\n  {body}')
+        o.const('validity.' + qual, mk)
+    per_node('is_smooth', 'isSmoothNode', 'sum_nodes', 'isSmoothClass')
+    per_node('is_decomposable', 'isDecomposableNode', 'product_nodes', 'isDecomposableClass')
+
+    def check_spn_order():
+        fn = T.find_func(validity, 'check_spn')
+        order = []
+        for s in fn.body:
+            if isinstance(s, ast.If) and isinstance(s.test, ast.Name):
+                cs = [T.dotted_name(c.func) for c in ast.walk(s) if isinstance(c, ast.Call) and (T.dotted_name(c.func) or '').startswith('is_')]
+                rs = [x for x in ast.walk(s) if isinstance(x, ast.Raise)]
+                if len(cs) != 1 or len(rs) != 1:
+                    raise U('check_spn: a flag block without exactly one is_* call and one raise')
+                order.append((s.test.id, cs[0]))
+        items = ', '.join(f'({T.lean_str(a)}, {T.lean_str(b)})' for a, b in order)
+        return ('/-- `validity.check_spn`: (flag, test) pairs in the order in which they are applied -/\n'
+                f'def checkSpnOrder : List (String × String) := [{items}]')
+    o.const('validity.check_spn', check_spn_order)
+
+    # ---- (f) C08: evaluation.py — what the tasks of the two layer-parallel passes store, and under which lock ----
+    evaluation = T.parse_file(repo, 'deeprob/spn/algorithms/evaluation.py')
+    SHARED = ('masks', 'x', 'ls', 'lls')
+
+    def top_down_stores():
+        fn = T.find_func(evaluation, 'eval_top_down')
+        task = T.nested_func(fn, 'eval_backward')
+        sites = T.store_sites(task)
+        # the lock is created once per call, outside the task function, by threading.Lock()
+        pm = T.parent_map(fn)
+        locks = [(st, v) for st in ast.walk(fn) if isinstance(st, ast.Assign) for t in st.targets
+                 if T.target_key(t) == 'masks_lock' for v in [st.value]]
+        kinds = [T.dotted_name(v.func) for _, v in locks if isinstance(v, ast.Call) and not any(
+            isinstance(a, ast.Name) and a.id == 'masks_lock' for a in v.args)]
+        outside = all(next(a for a in T.ancestors(fn, st, pm) + [fn] if isinstance(a, ast.FunctionDef)) is fn for st, _ in locks)
+        once = all(not isinstance(a, (ast.For, ast.While)) for st, _ in locks for a in T.ancestors(fn, st, pm))
+        kind = T.the(kinds, 'creation of masks_lock')
+        items = ',\n   '.join(T.store_site_lean(d, 'n', SHARED) for d in sites)
+        return ('/-- `eval_top_down.eval_backward` (the task run for every node of a layer): every store into a subscripted array -/\n'
+                f'def topDownStores : List StoreSite :=\n  [{items}]\n'
+                '/-- `eval_top_down`: how `masks_lock` is created; created in the body of `eval_top_down` itself (one lock per call, '
+                'shared by all tasks), outside every loop -/\n'
+                f'def topDownLockKind : String := {T.lean_str(kind)}\n'
+                f'def topDownLockShared : Bool := {"true" if outside and once and locks else "false"}')
+    o.const('evaluation.eval_top_down', top_down_stores)
+
+    def bottom_up_stores():
+        fn = T.find_func(evaluation, 'eval_bottom_up')
+        task = T.nested_func(fn, 'eval_forward')
+        sites = T.store_sites(task)
+        items = ',\n   '.join(T.store_site_lean(d, 'n', SHARED) for d in sites)
+        reads = sorted(set(T.load_sites(task, ('ls',))))
+        loops = sorted({ast.unparse(g.target) + ' in ' + ast.unparse(g.iter) for c in ast.walk(task) if isinstance(c, (ast.ListComp, ast.GeneratorExp))
+                        for g in c.generators if any(isinstance(x, ast.Subscript) and isinstance(x.value, ast.Name) and x.value.id == 'ls' for x in ast.walk(c.elt))})
+        return ('/-- `eval_bottom_up.eval_forward` (the task run for every node of a layer): every store into a subscripted array -/\n'
+                f'def bottomUpStores : List StoreSite :=\n  [{items}]\n'
+                '/-- `eval_forward`: the rows of `ls` it reads, and the comprehension(s) they are read in -/\n'
+                f'def bottomUpReads : List (String × String) := [{", ".join(f"({T.lean_str(a)}, {T.lean_str(i)})" for a, i in reads)}]\n'
+                f'def bottomUpReadLoops : List String := {T.lean_list([T.lean_str(l) for l in loops])}')
+    o.const('evaluation.eval_bottom_up', bottom_up_stores)
+
+    # ---- (d) C16: region.py / layers/ratspn.py — region split, pad, unpad ------------------------------------
+    region = T.parse_file(repo, 'deeprob/utils/region.py')
+    ratspn_l = T.parse_file(repo, 'deeprob/spn/layers/ratspn.py')
+
+    def region_split():
+        fn = T.find_func(region, 'RegionGraph.random_layers')
+        loop = T.loop_over(fn, 'r')
+        appends = {'regions': [], 'partitions': []}
+        lets = []
+        for st in loop.body:
+            if isinstance(st, ast.Expr) and isinstance(st.value, ast.Call) and isinstance(st.value.func, ast.Attribute) \
+                    and st.value.func.attr == 'append' and isinstance(st.value.func.value, ast.Name) \
+                    and st.value.func.value.id in appends and len(st.value.args) == 1:
+                appends[st.value.func.value.id].append(st.value.args[0])
+            else:
+                lets.append(st)
+        tr = T.TrZ(env={'r': ('r', ('list', 'item'))}, funcs={'sorted': ('sorted', None)}, transparent=('tolist',),
+                   syms={'self.random_state.permutation(r)': ('permutation', ('list', 'item'))})
+        regs, _ = T.let_block(tr, lets, ast.List(elts=appends['regions'], ctx=ast.Load()))
+        part = T.the(appends['partitions'], 'partitions.append in random_layers')
+        parts, pty = T.let_block(tr, lets, part)
+        if pty != ('list', ('list', 'item')):
+            raise U('partitions.append argument is not a tuple of regions')
+        sig = '(sorted : List Nat → List Nat) (r permutation : List Nat) : List (List Nat)'
+        return ('/-- `RegionGraph.random_layers`, one region `r` (`permutation` = `random_state.permutation(r)`): the regions '
+                'appended to `regions`, in order -/\n'
+                f'def regionSplitRegions {sig} :=\n  {regs}\n'
+                '/-- … and the tuple appended to `partitions` -/\n'
+                f'def regionSplitPartition {sig} :=\n  {parts}')
+    o.const('region.random_layers', region_split)
+
+    RG_SYMS = {'self.in_features': ('inFeatures', 'int'), 'self.rg_depth': ('rgDepth', 'int'), 'self.pad': ('pad', 'int')}
+
+    def rat_pad():
+        fn = T.find_func(ratspn_l, 'RegionGraphLayer.__init__')
+        pad = T.the(T.assignments(fn, 'self.pad'), 'self.pad')
+        dim = T.the(T.assignments(fn, 'self.dimension'), 'self.dimension')
+        inp = T.the(T.assignments(fn, 'in_features_pad'), 'in_features_pad')
+        tr = T.TrZ(syms=RG_SYMS)
+        p = tr.as_int(tr.tr(pad))
+        i = tr.as_int(tr.tr(inp))
+        d = tr.child(in_features_pad=(f'({i})', 'int')).tr(dim)
+        return ('/-- `RegionGraphLayer.__init__`: `self.pad` -/\n'
+                f'def ratPad (inFeatures rgDepth : Int) : Int := {p}\n'
+                '/-- `RegionGraphLayer.__init__`: `self.dimension` (with `in_features_pad` substituted) -/\n'
+                f'def ratDim (inFeatures rgDepth pad : Int) : Int := {tr.as_int(d)}')
+    o.const('ratspn.pad', rat_pad)
+
+    def rat_unpad():
+        fn = T.find_func(ratspn_l, 'RegionGraphLayer.unpad_samples')
+        ifs = [st for st in fn.body if isinstance(st, ast.If)]
+        st = T.the(ifs, 'if in unpad_samples')
+        if st.orelse or len(st.body) != 1 or not isinstance(st.body[0], ast.Assign) or T.target_key(st.body[0].targets[0]) != 'samples':
+            raise U('unpad_samples: the conditional is not `if <test>: samples = …`')
+        r = T.the(T.returns(fn), 'return of unpad_samples')
+        if ast.unparse(r) != 'samples':
+            raise U('unpad_samples does not return samples')
+        tr = T.TrZ(env={'samples': ('samples', ('list', 'val'))}, transparent=('view', 'reshape'),
+                   syms=dict(RG_SYMS, **{'self.inv_pad_mask[idx_repetitions]': ('invPadRow', ('list', 'bool'))}))
+        c = tr.as_bool(tr.tr(st.test))
+        v, ty = tr.tr(st.body[0].value)
+        if ty != ('list', 'val'):
+            raise U('unpad_samples: selection is not a row of values')
+        return ('/-- `RegionGraphLayer.unpad_samples` on one row, after the gather: `samples` = gathered row, `invPadRow` = '
+                '`self.inv_pad_mask[idx_repetitions]` of that row -/\n'
+                f'def ratUnpadRow {{β : Type}} (pad : Int) (samples : List β) (invPadRow : List Bool) : List β :=\n'
+                f'  if {c} then {v} else samples')
+    o.const('ratspn.unpad_samples', rat_unpad)
+
+    # ---- (i) C09 / C10: structure.py — single-child collapses of `prune`, argument guards of `marginalize` ------------
+    structure = T.parse_file(repo, 'deeprob/spn/algorithms/structure.py')
+
+    def collapse_of(st, listname, what):
+        """`if len(<listname>) == 1: nodes_map[node.id] = <listname>[0]` as `Option`-valued Lean text"""
+        body = [b for b in st.body if not isinstance(b, ast.Continue)]
+        if not (len(body) == 1 and isinstance(body[0], ast.Assign) and T.target_key(body[0].targets[0]) == 'nodes_map[node.id]'):
+            raise U(f'{what}: the branch does not just set nodes_map[node.id]')
+        tr = T.TrZ(env={listname: (listname, ('list', 'item'))})
+        c = tr.as_bool(tr.tr(st.test))
+        v, ty = tr.tr(body[0].value)
+        if ty != 'item':
+            raise U(f'{what}: replacement is not an element of {listname}')
+        return f'if {c} then some {v} else none'
+
+    def prune_collapse():
+        fn = T.find_func(structure, 'prune')
+        loop = T.loop_over(fn, 'node')
+        top = [st for st in loop.body if isinstance(st, ast.If) and 'children_nodes' in ast.unparse(st.test)]
+        first = T.the(top, 'prune: test on children_nodes')
+        # the Sum branch of the elif chain
+        branch, cur = None, first
+        while cur.orelse and len(cur.orelse) == 1 and isinstance(cur.orelse[0], ast.If):
+            cur = cur.orelse[0]
+            if ast.unparse(cur.test).replace(' ', '') == 'isinstance(node,Sum)':
+                branch = cur
+        if branch is None:
+            raise U('prune: no `elif isinstance(node, Sum)` branch')
+        idx = [k for k, st in enumerate(branch.body) if isinstance(st, ast.Assign)
+               and ast.unparse(st).replace(' ', '') == 'children,weights=zip(*children_weights.items())']
+        k = T.the(idx, 'prune: children, weights = zip(*children_weights.items())')
+        after = branch.body[k + 1:]
+        if not (after and isinstance(after[0], ast.If) and not after[0].orelse):
+            raise U('prune: no test directly after the merge of the Sum branch')
+        test = after[0]
+        ends_continue = isinstance(test.body[-1], ast.Continue)
+        stores = [ast.unparse(t) for st in after[1:] if isinstance(st, ast.Assign) for t in st.targets]
+        before = ends_continue and sorted(stores) == ['nodes_map[node.id].children', 'nodes_map[node.id].weights']
+        return ('/-- `prune`, any inner node: the replacement `nodes_map[node.id]` chosen from the retrieved `children_nodes` -/\n'
+                f'def pruneSingleChild (children_nodes : List Nat) : Option Nat :=\n  {collapse_of(first, "children_nodes", "prune")}\n'
+                '/-- `prune`, Sum branch, directly after `children, weights = zip(*children_weights.items())`: the replacement chosen '
+                'from the merged `children` -/\n'
+                f'def pruneMergedSingle (children : List Nat) : Option Nat :=\n  {collapse_of(test, "children", "prune (Sum)")}\n'
+                '/-- … that branch ends with `continue` and is followed only by the stores of `.weights` and `.children` -/\n'
+                f'def pruneMergedSingleSkipsRewrite : Bool := {"true" if before else "false"}')
+    o.const('structure.prune', prune_collapse)
+
+    def marg_guards():
+        fn = T.find_func(structure, 'marginalize')
+        stmts = _skip_prologue(T, fn, [])
+        prefix = []
+        for st in stmts:
+            if (isinstance(st, ast.Assign) and isinstance(st.targets[0], ast.Name)) or \
+                    (isinstance(st, ast.If) and len(st.body) == 1 and isinstance(st.body[0], ast.Raise)):
+                prefix.append(st)
+            else:
+                break
+        if len(T.raise_guards(fn)) and len([st for st in prefix if isinstance(st, ast.If)]) == 0:
+            raise U('marginalize: no leading argument guards')
+        tr = T.TrZ(env={'keep_scope': ('keep_scope', ('list', 'item'))}, syms={'root.scope': ('rootScope', ('list', 'item'))})
+        return ('/-- `structure.marginalize`: the leading argument guards (index of the first one that raises) -/\n'
+                f'def margGuardChain (keep_scope rootScope : List Nat) : Option Nat :=\n  {tr.chain(prefix)}')
+    o.const('structure.marginalize.guards', marg_guards)
+
+    # ---- (h) C06: inference.sum_mpe, Bernoulli.mpe, Categorical.mpe ------------------------------------------------
+    inference = T.parse_file(repo, 'deeprob/spn/algorithms/inference.py')
+    leaf = T.parse_file(repo, 'deeprob/spn/structure/leaf.py')
+
+    def sum_mpe_parts():
+        fn = T.find_func(inference, 'sum_mpe')
+        r = T.the(T.returns(fn), 'return of sum_mpe')
+        f, arg, axis, other = T.reduction_call(r)
+        if other:
+            raise U('sum_mpe: unexpected keywords ' + str(other))
+        # what is reduced: the argument, with the assignments of the body substituted, read per (row, child) entry
+        tr = T.Tr(syms={'lls': 'll', 'node.weights': 'w'})
+        tr.run_stmts([st for st in fn.body if not isinstance(st, ast.Return)])
+        score = tr.tr(ast.parse(arg, mode='eval').body)
+        return (f, axis, score)
+
+    def sum_mpe_const():
+        f, axis, _ = sum_mpe_parts()
+        return ('/-- `inference.sum_mpe`: the reduction that picks the branch and its axis (`lls` has one row per sample, one column per child) -/\n'
+                f'def sumMpeSelector : String := {T.lean_str(f)}\n'
+                f'def sumMpeAxis : Option Int := {T.lean_opt_int(axis)}')
+    o.const('inference.sum_mpe.selector', sum_mpe_const)
+
+    def sum_mpe_formula():
+        _, _, score = sum_mpe_parts()
+        return ('/-- `inference.sum_mpe`: the entry reduced for one child; ll = log-value of the child, w = its weight -/\n'
+                f'def sumMpeScore (ll w : F) : F := {score}')
+    o.formula('inference.sum_mpe.score', sum_mpe_formula)
+
+    def bern_mpe():
+        fn = T.find_func(leaf, 'Bernoulli.mpe')
+        v = T.the(T.assignments(fn, 'x[mask]'), 'Bernoulli.mpe fill value')
+        m = T.the(T.assignments(fn, 'mask'), 'Bernoulli.mpe mask')
+        if ast.unparse(m).replace(' ', '') != 'np.isnan(x)':
+            raise U('Bernoulli.mpe: mask is not np.isnan(x)')
+        return ('/-- `Bernoulli.mpe`: the value written into the missing entries -/\n'
+                f'def bernMpe (p : F) : F := {T.Tr(env={"self.p": "p"}).tr(v)}')
+    o.formula('Bernoulli.mpe', bern_mpe)
+
+    def cat_mpe():
+        fn = T.find_func(leaf, 'Categorical.mpe')
+        v = T.the(T.assignments(fn, 'x[mask]'), 'Categorical.mpe fill value')
+        m = T.the(T.assignments(fn, 'mask'), 'Categorical.mpe mask')
+        if ast.unparse(m).replace(' ', '') != 'np.isnan(x)':
+            raise U('Categorical.mpe: mask is not np.isnan(x)')
+        if not isinstance(v, ast.Subscript):
+            raise U('Categorical.mpe: fill value is not <table>[<index>]')
+        f, arg, axis, other = T.reduction_call(v.slice)
+        if other:
+            raise U('Categorical.mpe: unexpected keywords')
+        return ('/-- `Categorical.mpe`: the missing entries receive `<catMpeTable>[<catMpeSelector>(<catMpeArg>)]` -/\n'
+                f'def catMpeTable : String := {T.lean_str(ast.unparse(v.value))}\n'
+                f'def catMpeSelector : String := {T.lean_str(f)}\n'
+                f'def catMpeArg : String := {T.lean_str(arg)}\n'
+                f'def catMpeAxis : Option Int := {T.lean_opt_int(axis)}')
+    o.const('Categorical.mpe', cat_mpe)
+
+    # ---- (j) C02 / C06 / C07 / C12: cltree.py — reductions of message_passing, normalisation in sample, result of to_pc ----
+    cltree = T.parse_file(repo, 'deeprob/spn/structure/cltree.py')
+
+    def clt_reductions():
+        fn = T.find_func(cltree, 'BinaryCLT.message_passing')
+        rows = []
+        for d in T.store_sites(fn, ('messages', 'lls')):
+            cond = next((t for t in d['tests'] if t.replace(' ', '').startswith('reduce==')), '')
+            try:
+                f, arg, axis, other = T.reduction_call(d['rhs'])
+                if other:
+                    raise U('message_passing: reduction with keywords ' + str(other))
+            except U:
+                f, axis = '', None          # not a reduction: an element-wise sum of log-values
+                if not (isinstance(d['rhs'], ast.BinOp) and isinstance(d['rhs'].op, ast.Add)):
+                    raise U('message_passing: store that is neither a reduction nor a sum: ' + ast.unparse(d['stmt']))
+            rows.append('(%s, %s, %s, %s, %s, %s)' % (T.lean_str(cond), T.lean_str(d['array']), T.lean_str(d['index']),
+                                                      T.lean_str(d['op']), T.lean_str(f), T.lean_opt_int(axis)))
+        # every value `reduce` is compared with, and what happens otherwise
+        return ('/-- `BinaryCLT.message_passing`: every store into `messages` / `lls`: (test on `reduce`, array, index, operator, '
+                'reduction applied to the right-hand side ("" = element-wise sum of log-values), its axis) -/\n'
+                'def cltMessageStores : List (String × String × String × String × String × Option Int) :=\n  ['
+                + ',\n   '.join(rows) + ']')
+    o.const('cltree.message_passing', clt_reductions)
+
+    def clt_sample():
+        fn = T.find_func(cltree, 'BinaryCLT.sample')
+        norms = []
+        for v in T.assignments(fn, 'log_probs'):
+            if isinstance(v, ast.BinOp) and isinstance(v.op, ast.Sub):
+                a, b = v.left, v.right
+                if not (isinstance(a, ast.Subscript) and ast.unparse(a.value) == 'log_probs' and isinstance(a.slice, ast.Tuple)
+                        and len(a.slice.elts) == 2 and ast.unparse(a.slice.elts[0]) == ':'):
+                    raise U('sample: minuend is not log_probs[:, k]')
+                k = int(T.const_value(a.slice.elts[1]))
+                f, arg, axis, other = T.reduction_call(b)
+                if arg != 'log_probs' or other:
+                    raise U('sample: subtrahend is not a reduction of log_probs')
+                norms.append((k, f, axis))
+        srcs = [ast.unparse(v) for v in T.assignments(fn, 'log_probs') if not (isinstance(v, ast.BinOp) and isinstance(v.op, ast.Sub))]
+        draws = [d for d in T.store_sites(fn, ('x',))]
+        for d in draws:
+            if ast.unparse(d['rhs']).replace(' ', '') != 'ss.bernoulli.rvs(np.exp(log_probs))':
+                raise U('sample: a store into x is not ss.bernoulli.rvs(np.exp(log_probs))')
+        pv = T.the(T.assignments(fn, 'obs_parent_values'), 'obs_parent_values')
+        if isinstance(pv, ast.Call) and isinstance(pv.func, ast.Attribute) and pv.func.attr == 'astype':
+            pv = pv.func.value
+        mp = T.the([c for c in T.calls(fn, 'message_passing')], 'message_passing call in sample')
+        kws = {k.arg: ast.unparse(k.value) for k in mp.keywords}
+        tr = T.Tr(syms={'log_probs[:, 1]': 'lk', 'log_probs[:, 0]': 'lk', 'logsumexp(log_probs, axis=1)': 'lse'})
+        return ('/-- `BinaryCLT.sample`: each `log_probs = log_probs[:, k] - f(log_probs, axis)`: (k, f, axis), in source order (root, then the loop) -/\n'
+                f'def cltSampleNorm : List (Int × String × Option Int) := [{", ".join(f"({k}, {T.lean_str(f)}, {T.lean_opt_int(a)})" for k, f, a in norms)}]\n'
+                '/-- … the un-normalised `log_probs` they start from -/\n'
+                f'def cltSampleLogits : List String := {T.lean_list([T.lean_str(x) for x in srcs])}\n'
+                '/-- … where the drawn Bernoulli values are stored, the parent values read, and the `reduce` mode of the messages -/\n'
+                f'def cltSampleStores : List String := {T.lean_list([T.lean_str(d["index"]) for d in draws])}\n'
+                f'def cltSampleParentValues : String := {T.lean_str(ast.unparse(pv))}\n'
+                f'def cltSampleReduce : String := {T.lean_str(kws.get("reduce", ""))}')
+    o.const('cltree.sample', clt_sample)
+
+    def clt_sample_formula():
+        fn = T.find_func(cltree, 'BinaryCLT.sample')
+        vs = [v for v in T.assignments(fn, 'log_probs') if isinstance(v, ast.BinOp) and isinstance(v.op, ast.Sub)]
+        tr = T.Tr(syms={'log_probs[:, 1]': 'lk', 'logsumexp(log_probs, axis=1)': 'lse'})
+        ts = {tr.tr(v) for v in vs}
+        body = T.the(sorted(ts), 'normalisation formula of sample')
+        draws = {ast.unparse(d['rhs']) for d in T.store_sites(fn, ('x',))}
+        tr2 = T.Tr(syms={'log_probs': 'lp'}, call_hook=lambda t, c: t.tr(c.args[0]) if (T.dotted_name(c.func) or '').endswith('bernoulli.rvs') and len(c.args) == 1 and not c.keywords else None)
+        p = T.the(sorted({tr2.tr(ast.parse(x, mode='eval').body) for x in draws}), 'Bernoulli parameter of sample')
+        return ['/-- `BinaryCLT.sample`: normalised log-probability; lk = `log_probs[:, 1]`, lse = `logsumexp(log_probs, axis=1)` -/\n'
+                f'def cltSampleLogProb (lk lse : F) : F := {body}',
+                '/-- `BinaryCLT.sample`: the parameter handed to `ss.bernoulli.rvs`, as a function of the normalised log-probability -/\n'
+                f'def cltSampleBernParam (lp : F) : F := {p}']
+    o.formula('cltree.sample.formula', clt_sample_formula)
+
+    def clt_to_pc():
+        fn = T.find_func(cltree, 'BinaryCLT.to_pc')
+        r = T.the(T.returns(fn), 'return of to_pc')
+        if not (isinstance(r, ast.Call) and T.dotted_name(r.func) == 'assign_ids' and len(r.args) == 1):
+            raise U('to_pc does not return assign_ids(<node>)')
+        tr = T.Tr()
+        v = r.args[0]
+        if isinstance(v, ast.Name):
+            v = T.the(T.assignments(fn, v.id), 'to_pc: ' + v.id)
+        if not (isinstance(v, ast.Subscript) and isinstance(v.value, ast.Name)):
+            raise U('to_pc: returned node is not <buffer>[k]')
+        buf, k = v.value.id, int(T.const_value(v.slice))
+        rows, prods = [], []
+        for c in ast.walk(fn):
+            if isinstance(c, ast.Call) and isinstance(c.func, ast.Attribute) and c.func.attr == 'append' and isinstance(c.func.value, ast.Name) \
+                    and c.func.value.id.endswith('_buffer'):
+                a = T.the(c.args, 'argument of append')
+                kw = {x.arg: x.value for x in a.keywords} if isinstance(a, ast.Call) and T.dotted_name(a.func) == 'Sum' else None
+                if not kw or set(kw) != {'children', 'weights'} or not isinstance(kw['weights'], ast.Subscript):
+                    raise U('to_pc: buffer element is not Sum(children=…, weights=<w>[k])')
+                rows.append((c.lineno, c.func.value.id, ast.unparse(kw['children']), ast.unparse(kw['weights'].value), int(T.const_value(kw['weights'].slice))))
+        for name in ('neg_prod', 'pos_prod'):
+            p = T.the(T.assignments(fn, name), name)
+            kw = {x.arg: x.value for x in p.keywords} if isinstance(p, ast.Call) and T.dotted_name(p.func) == 'Product' else None
+            ch = kw and kw.get('children')
+            if not (isinstance(ch, ast.BinOp) and isinstance(ch.op, ast.Add) and isinstance(ch.left, ast.List) and len(ch.left.elts) == 1
+                    and isinstance(ch.left.elts[0], ast.Subscript) and ast.unparse(ch.left.elts[0].value) == 'leaves'
+                    and isinstance(ch.right, ast.Subscript) and isinstance(ch.right.value, ast.Name)):
+                raise U(f'to_pc: {name} is not Product(children=[leaves[k]] + <buffer>[…])')
+            prods.append((name, int(T.const_value(ch.left.elts[0].slice)), ch.right.value.id))
+        sc = [ast.unparse(x) for x in T.assignments(fn, 'sum_children')]
+        lv = T.the([x for x in T.assignments(fn, 'leaves')], 'leaves')
+        ps = [float(T.const_value(kw.value)) for el in lv.elts for kw in el.keywords if kw.arg == 'p'] if isinstance(lv, ast.List) else None
+        if ps is None or len(ps) != 2:
+            raise U('to_pc: leaves is not a pair of Bernoulli(…, p=<const>)')
+        rows.sort()
+        return ('/-- `BinaryCLT.to_pc`: the node returned (through `assign_ids`) is `<buffer>[k]` -/\n'
+                f'def toPcReturnBuffer : String := {T.lean_str(buf)}\n'
+                f'def toPcReturnIndex : Int := {k}\n'
+                '/-- … each `<buffer>.append(Sum(children=<children>, weights=<w>[row]))`: (buffer, children, w, row) -/\n'
+                'def toPcBufferRows : List (String × String × String × Int) := ['
+                + ', '.join(f'({T.lean_str(b)}, {T.lean_str(c)}, {T.lean_str(w)}, {r})' for _, b, c, w, r in rows) + ']\n'
+                '/-- … `<prod> = Product(children=[leaves[k]] + <buffer>[…])`: (prod, k, buffer); `sum_children` alternatives; `p` of `leaves[0]`, `leaves[1]` -/\n'
+                'def toPcProducts : List (String × Int × String) := ['
+                + ', '.join(f'({T.lean_str(a)}, {b}, {T.lean_str(c)})' for a, b, c in prods) + ']\n'
+                f'def toPcSumChildren : List String := {T.lean_list([T.lean_str(x) for x in sc])}\n'
+                f'def toPcLeafP : List Int := [{int(ps[0])}, {int(ps[1])}]')
+    o.const('cltree.to_pc', clt_to_pc)
+
+    # ---- (k) C11: statistics.estimate_priors_joints — smoothing formulas ------------------------------------------------
+    statistics = T.parse_file(repo, 'deeprob/utils/statistics.py')
+
+    def priors_joints():
+        fn = T.find_func(statistics, 'estimate_priors_joints')
+        syms = {'counts_features': 'c', 'n_samples': 'n', 'alpha': 'alpha', 'counts_cols': 'cj', 'counts_rows': 'ci',
+                'counts_ones': 'cij'}
+        tr = T.Tr(syms=syms)
+        tr.run_stmts([st for st in fn.body if not isinstance(st, ast.Return)])
+        res = []
+        for lean, tgt, doc in (('priorOne', 'priors[:,1]', 'P(X_i = 1)'), ('priorZero', 'priors[:,0]', 'P(X_i = 0)')):
+            res.append(f'/-- `estimate_priors_joints`: `{tgt}` — {doc}; c = `counts_features[i]`, n = `n_samples` -/\n'
+                       f'def {lean} (c n alpha : F) : F := {tr.value_of(tgt)}')
+        for a in (0, 1):
+            for b in (0, 1):
+                res.append(f'/-- `estimate_priors_joints`: `joints[:, :, {a}, {b}]` before smoothing; cj = `counts_cols[i, j]`, '
+                           f'ci = `counts_rows[i, j]`, cij = `counts_ones[i, j]` -/\n'
+                           f'def jointCell{a}{b} (n cj ci cij : F) : F := {tr.value_of(f"joints[:,:,{a},{b}]")}')
+        sm = []
+        for v in T.assignments(fn, 'joints'):
+            try:
+                sm.append(T.Tr(syms=syms, env={'joints': 'cell'}).tr(v))
+            except U:
+                pass
+        res.append('/-- `estimate_priors_joints`: `joints = (joints + alpha) / (n_samples + 4 * alpha)` on one cell -/\n'
+                   f'def jointSmooth (cell n alpha : F) : F := {T.the(sm, "smoothing of joints")}')
+        tr2 = T.Tr(syms=dict(syms, **{'priors[:, 0]': 'p0', 'priors[:, 1]': 'p1'}))
+        for a in (0, 1):
+            for b in (0, 1):
+                v = T.the(T.assignments(fn, f'joints[idx_features,idx_features,{a},{b}]'), f'diagonal correction {a}{b}')
+                res.append(f'/-- `estimate_priors_joints`: `joints[i, i, {a}, {b}]` after the diagonal correction; p0, p1 = `priors[i]` -/\n'
+                           f'def jointDiag{a}{b} (p0 p1 : F) : F := {tr2.tr(v)}')
+        idx = T.the(T.assignments(fn, 'idx_features'), 'idx_features')
+        if ast.unparse(idx).replace(' ', '') != 'np.arange(n_features)':
+            raise U('idx_features is not np.arange(n_features)')
+        g = T.the(T.raise_guards(fn), 'estimate_priors_joints guard')
+        res.append('/-- `estimate_priors_joints` raises iff -/\n'
+                   f'def priorsJointsRejects (alpha : F) : Prop := {T.cmp_guard(g, T.Tr(env={"alpha": "alpha"}))}')
+        return res
+    o.formula('statistics.estimate_priors_joints', priors_joints)
+
+    # ---- (a) C15: autoregressive.py — MADE masks and sequential degrees -----------------------------------------------
+    autoreg = T.parse_file(repo, 'deeprob/flows/layers/autoregressive.py')
+
+    def made_masks():
+        fn = T.find_func(autoreg, 'AutoregressiveLayer.build_masks')
+        apps = [c for c in ast.walk(fn) if isinstance(c, ast.Call) and isinstance(c.func, ast.Attribute) and c.func.attr == 'append'
+                and ast.unparse(c.func.value) == 'masks']
+        apps.sort(key=lambda c: c.lineno)
+        if len(apps) != 2:
+            raise U(f'build_masks: expected two masks.append, found {len(apps)}')
+        loop = T.the([st for st in fn.body if isinstance(st, ast.For)], 'loop of build_masks')
+        if not any(apps[0] is c for c in ast.walk(loop)) or any(apps[1] is c for c in ast.walk(loop)):
+            raise U('build_masks: the first append is not in the loop / the second one is')
+        it = loop.iter
+        if not (isinstance(it, ast.Call) and T.dotted_name(it.func) == 'zip' and len(it.args) == 2
+                and isinstance(loop.target, ast.Tuple) and len(loop.target.elts) == 2):
+            raise U('build_masks: loop is not `for (a, b) in zip(x, y)`')
+        loopsrc = {loop.target.elts[k].id: ast.unparse(it.args[k]) for k in (0, 1)}
+
+        def operand(stmts, name, src0):
+            """the last `name = np.expand_dims(<src>, axis=k)` of `stmts` -> (source, k)"""
+            vs = [st.value for st in stmts if isinstance(st, ast.Assign) and T.target_key(st.targets[0]) == name]
+            if not vs:
+                raise U(f'build_masks: {name} is not expanded')
+            v = vs[-1]
+            if not (isinstance(v, ast.Call) and (T.dotted_name(v.func) or '').split('.')[-1] in ('expand_dims', 'unsqueeze') and v.args):
+                raise U(f'build_masks: {name} is not an expand_dims')
+            ax = [kw.value for kw in v.keywords if kw.arg in ('axis', 'dim')] or list(v.args[1:2])
+            src = ast.unparse(v.args[0])
+            return src0.get(src, src), int(T.const_value(T.the(ax, 'axis of expand_dims')))
+
+        out = []
+        for call, stmts, src0, lean in ((apps[0], loop.body, loopsrc, 'Hidden'), (apps[1], [st for st in fn.body if st is not loop], {}, 'Output')):
+            cmpc = T.the(call.args, 'argument of masks.append')
+            if isinstance(cmpc, ast.Call) and len(cmpc.args) == 2 and all(isinstance(a, ast.Name) for a in cmpc.args):
+                names = list(cmpc.args)
+            elif isinstance(cmpc, ast.Compare) and len(cmpc.ops) == 1 and isinstance(cmpc.left, ast.Name) and isinstance(cmpc.comparators[0], ast.Name):
+                names = [cmpc.left, cmpc.comparators[0]]
+            else:
+                raise U('build_masks: appended value is not a comparison of two names')
+            ops = [operand(stmts, a.id, src0) for a in names]
+            if sorted(k for _, k in ops) != [0, 1]:
+                raise U('build_masks: operands are not expanded along axes 0 and 1')
+            env = {a.id: ('a' if k == 0 else 'b', 'int') for a, (_, k) in zip(names, ops)}
+            body = T.TrZ(env=env).as_bool(T.TrZ(env=env).tr(cmpc))
+            by_axis = dict((k, srcx) for srcx, k in ops)
+            out.append(f'/-- `build_masks`, {lean.lower()} mask: entry `[o][i]`; a = entry `i` of the operand expanded along axis 0 (`{by_axis[0]}`), '
+                       f'b = entry `o` of the operand expanded along axis 1 (`{by_axis[1]}`) -/\n'
+                       f'def made{lean}Entry (a b : Int) : Bool := {body}\n'
+                       f'def made{lean}Operands : String × String := ({T.lean_str(by_axis[0])}, {T.lean_str(by_axis[1])})')
+        return '\n'.join(out)
+    o.const('autoregressive.build_masks', made_masks)
+
+    def made_degrees():
+        fn = T.find_func(autoreg, 'AutoregressiveLayer.build_degrees_sequential')
+        tr = T.TrZ(syms={'self.in_features': ('inFeatures', 'int')}, env={'units': ('units', 'int')})
+        apps = [(c, [a for a in T.ancestors(fn, c)]) for c in ast.walk(fn) if isinstance(c, ast.Call) and isinstance(c.func, ast.Attribute)
+                and c.func.attr == 'append' and ast.unparse(c.func.value) == 'degrees']
+        apps.sort(key=lambda p: p[0].lineno)
+        if len(apps) != 3:
+            raise U('build_degrees_sequential: expected three degrees.append')
+        iff = T.the([st for st in fn.body if isinstance(st, ast.If)], 'if of build_degrees_sequential')
+        if ast.unparse(iff.test) != 'reverse':
+            raise U('build_degrees_sequential: the test is not `reverse`')
+        rev = T.the([c for c, _ in apps if any(c is x for st in iff.body for x in ast.walk(st))], 'append under reverse')
+        fwd = T.the([c for c, _ in apps if any(c is x for st in iff.orelse for x in ast.walk(st))], 'append under not reverse')
+        hid, anc = T.the([(c, a) for c, a in apps if c is not rev and c is not fwd], 'hidden append')
+        loop = T.the([a for a in anc if isinstance(a, ast.For)], 'loop of the hidden append')
+        if ast.unparse(loop.iter).replace(' ', '') != 'range(depth)':
+            raise U('build_degrees_sequential: hidden degrees are not appended `depth` times')
+        h = hid.args[0]
+        if not (isinstance(h, ast.BinOp) and isinstance(h.left, ast.Call)):
+            raise U('build_degrees_sequential: hidden degrees are not <arange> op <expr>')
+        ha = T.arange_args(h.left, tr)
+        helem = T.TrZ(syms=dict(tr.syms_src(), **{ast.unparse(h.left): ('k', 'int')})).tr(h)
+        def trip(c):
+            a = T.arange_args(c.args[0], tr)
+            return f'({a[0]}, {a[1]}, {a[2]})'
+        return ('/-- `build_degrees_sequential`: bounds `(start, stop, step)` of the `np.arange` giving `degrees[0]`, for `reverse` / not `reverse` -/\n'
+                f'def madeInputArangeRev (inFeatures : Int) : Int × Int × Int := {trip(rev)}\n'
+                f'def madeInputArangeFwd (inFeatures : Int) : Int × Int × Int := {trip(fwd)}\n'
+                '/-- … bounds of the `np.arange` the hidden degrees are computed from, and the hidden degree of its entry `k` (appended `depth` times) -/\n'
+                f'def madeHiddenArange (units : Int) : Int × Int × Int := ({ha[0]}, {ha[1]}, {ha[2]})\n'
+                f'def madeHiddenDegree (k inFeatures : Int) : Int := {tr.as_int(helem)}')
+    o.const('autoregressive.build_degrees_sequential', made_degrees)
+
+    # ---- (b) C15: flows/utils.py — squeeze / unsqueeze as reshape, permute, reshape ------------------------------------
+    futils = T.parse_file(repo, 'deeprob/flows/utils.py')
+
+    def depth2d(qual, lean):
+        def mk():
+            fn = T.find_func(futils, qual)
+            sz = T.the([st for st in fn.body if isinstance(st, ast.Assign) and isinstance(st.targets[0], ast.Tuple)], f'{qual}: size unpacking')
+            names = [e.id for e in sz.targets[0].elts]
+            if ast.unparse(sz.value).replace(' ', '') not in ('x.size()', 'x.shape') or len(names) != 4:
+                raise U(f'{qual}: sizes are not `n, c, h, w = x.size()`')
+            steps = T.assignments(fn, 'x')
+            if [ast.unparse(r) for r in T.returns(fn)] != ['x']:
+                raise U(f'{qual}: does not return x')
+            kinds = [(v.func.attr if isinstance(v, ast.Call) and isinstance(v.func, ast.Attribute) and ast.unparse(v.func.value) == 'x' else None) for v in steps]
+            if [('reshape' if k == 'view' else k) for k in kinds] != ['reshape', 'permute', 'reshape']:
+                raise U(f'{qual}: steps are not x.reshape, x.permute, x.reshape but {kinds}')
+            tr = T.TrZ(env={nm: (nm, 'int') for nm in names})
+            def shape(call):
+                args = call.args[0].elts if len(call.args) == 1 and isinstance(call.args[0], (ast.Tuple, ast.List)) else call.args
+                return T.lean_list([tr.as_int(tr.tr(a)) for a in args])
+            perm = steps[1].args[0].elts if len(steps[1].args) == 1 and isinstance(steps[1].args[0], (ast.Tuple, ast.List)) else steps[1].args
+            perm = [int(T.const_value(a)) for a in perm]
+            sig = '(' + ' '.join(names) + ' : Int) : List Int'
+            return (f'/-- `flows.utils.{qual}`: `x.reshape({lean}Shape).permute({lean}Perm).reshape({lean}OutShape)` with `{", ".join(names)} = x.size()` -/\n'
+                    f'def {lean}Shape {sig} := {shape(steps[0])}\n'
+                    f'def {lean}Perm : List Nat := {T.lean_list([str(k) for k in perm])}\n'
+                    f'def {lean}OutShape {sig} := {shape(steps[2])}')
+        o.const('flows.utils.' + qual, mk)
+    depth2d('squeeze_depth2d', 'squeeze')
+    depth2d('unsqueeze_depth2d', 'unsqueeze')
+
+    # ---- (c) C15: RealNVP2d.build_permutation_matrix --------------------------------------------------------------------
+    realnvp = T.parse_file(repo, 'deeprob/flows/models/realnvp.py')
+
+    def perm_matrix():
+        fns = [n for n in ast.walk(realnvp) if isinstance(n, ast.FunctionDef) and n.name == 'build_permutation_matrix']
+        fn = T.the(fns, 'build_permutation_matrix')
+        def nested(e):
+            if isinstance(e, ast.List):
+                return [nested(x) for x in e.elts]
+            v = T.const_value(e)
+            if v.denominator != 1:
+                raise U('ordering entry is not an integer')
+            return int(v)
+        def lean_nested(v):
+            return T.lean_list([lean_nested(x) for x in v]) if isinstance(v, list) else str(v)
+        ordv = T.the(T.assignments(fn, 'ordering'), 'ordering')
+        if not (isinstance(ordv, ast.Call) and (T.dotted_name(ordv.func) or '').split('.')[-1] in ('array', 'tensor') and ordv.args):
+            raise U('ordering is not an array literal')
+        ordering = nested(ordv.args[0])
+        w0 = T.the(T.assignments(fn, 'weights'), 'weights')
+        if not (isinstance(w0, ast.Call) and (T.dotted_name(w0.func) or '').split('.')[-1] == 'zeros'):
+            raise U('weights does not start from zeros')
+        tr = T.TrZ(env={'channels': ('channels', 'int'), 'i': ('i', 'int')})
+        wshape = T.lean_list([tr.as_int(tr.tr(a)) for a in w0.args[0].elts])
+        st = T.the(T.store_sites(fn, ('weights',)), 'store into weights')
+        if st['op'] != '=' or ast.unparse(st['rhs']) != 'ordering' or st['loops'] != ['i in range(channels)']:
+            raise U('weights block store is not `for i in range(channels): weights[…] = ordering`')
+        sl = st['stmt'].targets[0].slice
+        if not (isinstance(sl, ast.Tuple) and len(sl.elts) == 2 and all(isinstance(x, ast.Slice) and x.step is None and x.lower is not None and x.upper is not None for x in sl.elts)):
+            raise U('weights block is not weights[a:b, c:d]')
+        rows, cols = [(tr.as_int(tr.tr(x.lower)), tr.as_int(tr.tr(x.upper))) for x in sl.elts]
+        pv = T.the(T.assignments(fn, 'permutation'), 'permutation')
+        if isinstance(pv, ast.Call) and (T.dotted_name(pv.func) or '').split('.')[-1] in ('array', 'tensor') and len(pv.args) == 1:
+            pv = pv.args[0]
+        ptxt, pty = T.TrZ(env={'channels': ('channels', 'int')}).tr(pv)
+        if pty != ('list', 'int'):
+            raise U('permutation is not a list of integers')
+        r = T.the(T.returns(fn), 'return of build_permutation_matrix')
+        idx = [x for x in ast.walk(r) if isinstance(x, ast.Subscript)]
+        ret = ast.unparse(T.the(idx, 'indexing in the returned value'))
+        return ('/-- `RealNVP2d.build_permutation_matrix`: the `ordering` literal `[q][0][a][b]`, the shape of `weights` -/\n'
+                f'def rnvpOrdering : List (List (List (List Int))) := {lean_nested(ordering)}\n'
+                f'def rnvpWeightsShape (channels : Int) : List Int := {wshape}\n'
+                '/-- … `weights[r0:r1, c0:c1] = ordering` for `i in range(channels)`: the row and column bounds -/\n'
+                f'def rnvpBlockRows (i : Int) : Int × Int := ({rows[0]}, {rows[1]})\n'
+                f'def rnvpBlockCols (i : Int) : Int × Int := ({cols[0]}, {cols[1]})\n'
+                '/-- … the channel permutation, and what is returned -/\n'
+                f'def rnvpPermutation (channels : Int) : List Int := {ptxt}\n'
+                f'def rnvpReturned : String := {T.lean_str(ret)}')
+    o.const('realnvp.build_permutation_matrix', perm_matrix)
+
+    # ---- (e) C17: models/dgcspn.py layer schedule, layers/dgcspn.py padding amounts ------------------------------------
+    dgc_m = T.parse_file(repo, 'deeprob/spn/models/dgcspn.py')
+    dgc_l = T.parse_file(repo, 'deeprob/spn/layers/dgcspn.py')
+
+    def dgc_schedule():
+        fn = T.find_func(dgc_m, 'DgcSpn.__init__')
+        loop = T.loop_over(fn, 'i')
+        tr = T.TrZ(env={'i': ('i', 'int'), 'depth': ('depth', 'int')}, syms={'self.n_pooling': ('nPooling', 'int')})
+        rng = T.arange_args(ast.Call(func=ast.Name(id='arange', ctx=ast.Load()), args=loop.iter.args, keywords=[]), tr) \
+            if isinstance(loop.iter, ast.Call) and T.dotted_name(loop.iter.func) == 'range' else None
+        if rng is None:
+            raise U('DgcSpn.__init__: the layer loop is not over a range')
+        first = loop.body[0]
+        if not isinstance(first, ast.If):
+            raise U('DgcSpn.__init__: the loop does not start with the pooling test')
+        ctor = T.the([c for c in ast.walk(loop) if isinstance(c, ast.Call) and T.dotted_name(c.func) == 'SpatialProductLayer'], 'SpatialProductLayer call')
+        kw = {k.arg: k.value for k in ctor.keywords}
+        for name in ('padding', 'stride', 'dilation'):
+            if ast.unparse(kw.get(name, ast.Constant(value=None))) != name:
+                raise U(f'SpatialProductLayer is not called with {name}={name}')
+        vals = {name: T.branch_value(tr, first, name) for name in ('padding', 'stride', 'dilation')}
+        if vals['padding'][1] != 'str' or vals['stride'][1] != ('list', 'int') or vals['dilation'][1] != ('list', 'int'):
+            raise U('DgcSpn.__init__: unexpected types of padding / stride / dilation')
+        kernel = tr.tr(kw['kernel_size'])
+        sums = [st for st in loop.body if isinstance(st, ast.If) and any(isinstance(c, ast.Call) and T.dotted_name(c.func) == 'SpatialSumLayer' for c in ast.walk(st))]
+        sumif = T.the(sums, 'conditional SpatialSumLayer')
+        order = [T.dotted_name(c.func) for st in loop.body for c in ast.walk(st) if isinstance(c, ast.Call) and T.dotted_name(c.func) in ('SpatialProductLayer', 'SpatialSumLayer')]
+        sig = '(i nPooling depth : Int)'
+        return ('/-- `DgcSpn.__init__`, loop over the inner layers: bounds of the `range`, then per level `i` the arguments of its '
+                '`SpatialProductLayer` -/\n'
+                f'def dgcLevels (depth : Int) : Int × Int × Int := ({rng[0]}, {rng[1]}, {rng[2]})\n'
+                f'def dgcPadding {sig} : String := {vals["padding"][0]}\n'
+                f'def dgcStride {sig} : List Int := {vals["stride"][0]}\n'
+                f'def dgcDilation {sig} : List Int := {vals["dilation"][0]}\n'
+                f'def dgcKernel : List Int := {kernel[0]}\n'
+                f'def dgcDepthwiseArg : String := {T.lean_str(ast.unparse(kw["depthwise"]))}\n'
+                '/-- … whether a `SpatialSumLayer` follows the product layer of level `i`, and the order of the two constructors -/\n'
+                f'def dgcSumFollows (i depth : Int) : Bool := {tr.as_bool(tr.tr(sumif.test))}\n'
+                f'def dgcLayerOrder : List String := {T.lean_list([T.lean_str(x) for x in order])}')
+    o.const('dgcspn.schedule', dgc_schedule)
+
+    def dgc_pads():
+        fn = T.find_func(dgc_l, 'SpatialProductLayer.__init__')
+        syms = {'self.dilation[0]': ('dilH', 'int'), 'self.dilation[1]': ('dilW', 'int'), 'self.in_height': ('inH', 'int'),
+                'self.in_width': ('inW', 'int'), 'self.in_channels': ('inC', 'int'), 'self.stride[0]': ('strideH', 'int'),
+                'self.stride[1]': ('strideW', 'int')}
+        tr = T.TrZ(env={'kh': ('kh', 'int'), 'kw': ('kw', 'int')}, syms=syms)
+        keh = tr.as_int(tr.tr(T.the(T.assignments(fn, 'keh'), 'keh')))
+        kew = tr.as_int(tr.tr(T.the(T.assignments(fn, 'kew'), 'kew')))
+        chain = T.the([st for st in fn.body if isinstance(st, ast.If) and ast.unparse(st.test).replace(' ', '').startswith('padding==')], 'padding cases')
+        tr2 = T.TrZ(env={'padding': ('padding', 'str'), 'keh': ('keh', 'int'), 'kew': ('kew', 'int')}, syms=syms)
+        pad, pty = T.cases_value(tr2, chain, 'self.pad')
+        if pty != ('list', 'int'):
+            raise U('self.pad is not a list of integers')
+        tr3 = T.TrZ(env={'keh': ('keh', 'int'), 'kew': ('kew', 'int'), 'depthwise': ('depthwise', 'bool'), 'kh': ('kh', 'int'), 'kw': ('kw', 'int')},
+                    syms=dict(syms, **{'self.pad': ('pad', ('list', 'int'))}))
+        oh = T.assignments(fn, 'out_h'); ow = T.assignments(fn, 'out_w')
+        if len(oh) != 2 or len(ow) != 2:
+            raise U('out_h / out_w are not assigned twice')
+        oh1 = tr3.as_int(tr3.child(out_h=(f'({tr3.as_int(tr3.tr(oh[0]))})', 'int')).tr(oh[1]))
+        ow1 = tr3.as_int(tr3.child(out_w=(f'({tr3.as_int(tr3.tr(ow[0]))})', 'int')).tr(ow[1]))
+        kd = tr3.as_int(tr3.tr(T.the(T.assignments(fn, 'kernel_dim'), 'kernel_dim')))
+        oc = tr3.as_int(tr3.child(kernel_dim=(kd, 'int')).tr(T.the(T.assignments(fn, 'out_c'), 'out_c')))
+        return ('/-- `SpatialProductLayer.__init__`: effective kernel sizes -/\n'
+                f'def dgcKeh (kh dilH : Int) : Int := {keh}\n'
+                f'def dgcKew (kw dilW : Int) : Int := {kew}\n'
+                '/-- … `self.pad` (`F.pad` order: left, right, top, bottom); `none` = the constructor raises -/\n'
+                f'def dgcPad (padding : String) (keh kew inH inW : Int) : Option (List Int) :=\n  {pad}\n'
+                '/-- … output height / width / channels -/\n'
+                f'def dgcOutH (pad : List Int) (inH keh strideH : Int) : Int := {oh1}\n'
+                f'def dgcOutW (pad : List Int) (inW kew strideW : Int) : Int := {ow1}\n'
+                f'def dgcOutC (depthwise : Bool) (inC kh kw : Int) : Int := {oc}')
+    o.const('dgcspn.SpatialProductLayer', dgc_pads)
